@@ -25,7 +25,8 @@ TIERS = {
     "thorough": dict(
         export=[("seq", '{"p1"}', 4, 2, 0, "FALSE", "TRUE", 4), ("crash", '{"p1"}', 4, 2, 0, "TRUE", "TRUE", 3),
                 ("race", '{"p1", "p2"}', 2, 1, 3, "FALSE", "FALSE", 3), ("race3", '{"p1", "p2", "p3"}', 2, 1, 2, "FALSE", "FALSE", 3),
-                ("racecrash", '{"p1", "p2"}', 3, 2, 2, "TRUE", "TRUE", 3)],
+                # (two runs, one context switch: 485 k states / 400 MB of behaviours; with two switches and three starts the export outgrew the machine)
+                ("racecrash", '{"p1", "p2"}', 3, 2, 1, "TRUE", "TRUE", 2)],
         mc=[("seq", '{"p1"}', 4, 2, 0, "FALSE", "TRUE", 4), ("crash", '{"p1"}', 4, 2, 0, "TRUE", "TRUE", 3),
             ("race3", '{"p1", "p2", "p3"}', 2, 1, 3, "FALSE", "FALSE", 3), ("racecrash", '{"p1", "p2"}', 4, 2, 2, "TRUE", "TRUE", 3)],
         cap=25000, ciw="all"),
